@@ -317,6 +317,12 @@ def compare3d(chk, a, b, R, s, t, desc, rng):
     # form factor: F_b(q) = s^3 F_a(s R^T q) exp(-i q.t), at moderate q
     diam = float(np.max(np.linalg.norm(V - c0, axis=1))) * 2
     Qb = np.array([[0.7, -0.4, 0.9], [0.0, 1.3, 0.2], [2.0, 0.0, 0.0]]) / (diam * s)
+    # ... and wave vectors exactly along two face normals of the transformed solid (for the original they are along ITS face normals up to
+    # rounding): the face's own contribution is then its plain area in both frames
+    Vb = np.asarray(b.vertices, float)
+    for f in list(b.faces)[:2]:
+        nb = np.cross(Vb[f[2]] - Vb[f[1]], Vb[f[0]] - Vb[f[1]])
+        Qb = np.vstack([Qb, 1.5 * nb / np.linalg.norm(nb) / (diam * s)])
     fa = excmsg(lambda: np.asarray(a.compute_form_factor_amplitude(s * Qb @ R)))
     fb = excmsg(lambda: np.asarray(b.compute_form_factor_amplitude(Qb)))
     box = float(np.prod(np.ptp(np.asarray(b.vertices, float), axis=0)))
@@ -332,7 +338,7 @@ def compare3d(chk, a, b, R, s, t, desc, rng):
                 nrm = np.cross(Vv[f[2]] - Vv[f[1]], Vv[f[0]] - Vv[f[1]]); nrm /= np.linalg.norm(nrm)
                 qp = Q - np.outer(Q @ nrm, nrm)
                 q2 = np.sum(qp * qp, axis=1)
-                if np.any((q2 > 0) & (q2 <= 1.0001e-8)):
+                if np.any((q2 > 1e-20 * np.sum(Q * Q, axis=1)) & (q2 <= 1.0001e-8)):      # (a rounding residue of the projection is not "under the threshold")
                     return True
             return False
         if chk.is_known("zero-q-absolute-threshold") and (under_threshold(b, Qb) or under_threshold(a, s * Qb @ R)):
